@@ -56,10 +56,19 @@ func (b *Builder) V1FormAt(ws, we uint64) (types.FileContractID, bool) {
 		return types.FileContractID{}, false
 	}
 	data := make([]byte, 200)
+	// an empty file needs no leaf to be proven once the storage-proof hardfork is active: where every height the
+	// rule probes lies in that era, one contract in three commits to no data (its proof must obey the window all the same)
+	if hf := b.C.Net.HardforkStorageProof.Height; ws >= 2 && hf <= ws-2 && b.C.Net.HardforkTax.Height <= ws-2 && rapid.IntRange(0, 2).Draw(b.T, "formAtEmpty") == 0 {
+		data = nil
+		b.label("v1-contract-over-empty-file")
+	}
 	for i := range data {
 		data[i] = byte(i*3 + int(ws))
 	}
 	root := types.Hash256(ref.FileRoot(data))
+	if len(data) == 0 {
+		root = types.Hash256{}
+	}
 	b.W.Files[root] = data
 	owner := b.W.Reg(MakeLock(LockSpec{Kind: 0, K1: 2}))
 	fc := types.FileContract{Filesize: uint64(len(data)), FileMerkleRoot: root, WindowStart: ws, WindowEnd: we, Payout: cur(payout), UnlockHash: owner.Address(),
